@@ -656,6 +656,7 @@ func runC14(r *core.Run) {
 			r.Capped.Store(true)
 		}
 	}
+	c14WideKeys(r)
 	c14Small(r)
 	// clause 2 over parser outputs
 	o := enumOpts{BaseBound: 2, MutateBound: 1, Families: []string{"KeysAndCert", "RouterInfo", "LeaseSet", "LeaseSet2", "EncryptedLeaseSet", "OfflineSignature", "RouterAddress", "Mapping", "Signature"}}
